@@ -11,7 +11,7 @@ import random
 
 import numpy as np
 
-from .. import gen, session, specgen
+from .. import frontier, gen, session, specgen
 
 PROP = 'C01'
 RULE = ('random scripted sessions (1-2 symbols, trading timeframe 1m-15m, data routes smaller and larger incl. 1h, spot/futures, '
@@ -22,7 +22,7 @@ RULE = ('random scripted sessions (1-2 symbols, trading timeframe 1m-15m, data r
 ASSUMPTIONS = ['normal simulator: prefix = events while the simulated clock <= T_k; fast simulator: prefix = events before the '
                'chunk that starts at index >= k', 'fast simulator: k on a boundary of every trading timeframe',
                'scripted strategies decide from (index, own observations) only']
-MIN_OBS = {'pairs_compared': 200, 'pairs_nontrivial': 50, 'pairs_step': 60, 'pairs_fast': 40,
+MIN_OBS = {'frontier_row_accesses': 20000, 'pairs_compared': 200, 'pairs_nontrivial': 50, 'pairs_step': 60, 'pairs_fast': 40,
            'prefix_events_compared': 100000, 'prefix_hook_events': 20000}
 
 
@@ -97,9 +97,13 @@ def run_job(job):
     allc = session.build_candles(spec)
     w = spec['warmup']
     n = len(next(iter(allc.values()))) - w
-    A = session.run_session(spec, candles={s: x.copy() for s, x in allc.items()})
+    # base run under the read-frontier guard: candle arrays are an ndarray subclass that records every row jesse touches
+    frontier.begin()
+    A = session.run_session(spec, candles={s: frontier.Guarded(x.copy()) for s, x in allc.items()})
+    reads = frontier.end()
     ev = A['events']
     cnt, viol, sigs = {'base_sessions': 1}, [], []
+    cnt['frontier_row_accesses'] = len(reads)
     # ---- choose cuts from A's own trace --------------------------------------------------------
     import math
     align = 1
@@ -124,6 +128,17 @@ def run_job(job):
         cuts.setdefault(idx(e['t']), 'at_fill')
     big = max([gen.TF_MIN[r['timeframe']] for r in spec['routes']] + [gen.TF_MIN[d['timeframe']] for d in spec['data_routes']])
     cuts.setdefault(rng.randrange(1, n) // big * big + big // 2, 'mid_window')
+    import math as _m
+    fstep = None
+    if fast:
+        fstep = 0
+        for r in spec['routes'] + spec['data_routes']:
+            fstep = _m.gcd(fstep, gen.TF_MIN[r['timeframe']])
+    fut = frontier.future_reads(reads, t0, fstep)
+    cnt['frontier_future_reads'] = len(fut)
+    for a_, b_, cur_, kind_ in fut[:3]:
+        # a row beyond the simulated minute/chunk was touched: place a cut exactly at that row
+        cuts[max(1, min(b_, a_ if a_ > cur_ else b_))] = 'read_frontier'
     cuts.setdefault(1, 'first_minute')
     cuts.setdefault(rng.randrange(1, n), 'random')
     cuts.setdefault(rng.randrange(1, n), 'random')
@@ -134,7 +149,7 @@ def run_job(job):
         if 1 <= k < n - 1 and k not in [c[0] for c in chosen]:
             chosen.append((k, name))
     rng.shuffle(chosen)
-    chosen = chosen[:job.get('max_cuts', 5)]
+    chosen = sorted(chosen, key=lambda c_: c_[1] != 'read_frontier')[:job.get('max_cuts', 5)]
     lattice = next(iter(spec['candles'].values())).get('lattice')
     for k, name in chosen:
         t_cut = t0 + k * 60000
